@@ -50,6 +50,7 @@ func c17Exec(depth int, masks []int) explore.Exec {
 		mask := 0
 		res := harness.RunExec(c, false, 0, func() {
 			mask = masks[harness.Choose(len(masks), harness.ClassOp)]
+			harness.SetMapOrderDesc(harness.Choose(2, harness.ClassOp) == 1)
 			var picks []int
 			w = harness.NewWorld(mon, mask, [][]byte{kA, kB}, false)
 			w.SetCollection("x", "nil")
